@@ -261,11 +261,18 @@ func Program(t *rapid.T, cfg AsmConfig) rc.Program {
 		items = append(items[:pos], append([]rc.Item{e}, items[pos:]...)...)
 	}
 	// metadata
+	insertMeta := func(it rc.Item, label string) {
+		pos := 0
+		if rapid.IntRange(0, 2).Draw(t, label+"anywhere") == 0 {
+			pos = rapid.IntRange(0, len(items)).Draw(t, label+"pos")
+		}
+		items = append(items[:pos], append([]rc.Item{it}, items[pos:]...)...)
+	}
 	if rapid.Bool().Draw(t, "hasname") {
-		items = append([]rc.Item{{Kind: rc.KMeta, Text: "name", Arg: rapid.SampledFrom([]string{"Imp", "Dwarf II", "x", "The  Thing, v1.0 ; rev"}).Draw(t, "name")}}, items...)
+		insertMeta(rc.Item{Kind: rc.KMeta, Text: "name", Arg: rapid.SampledFrom([]string{"Imp", "Dwarf II", "x", "The  Thing, v1.0 ; rev", "name", "author of all"}).Draw(t, "name")}, "name")
 	}
 	if rapid.Bool().Draw(t, "hasauthor") {
-		items = append([]rc.Item{{Kind: rc.KMeta, Text: "author", Arg: rapid.SampledFrom([]string{"A. K. Dewdney", "nobody", "J.Q. Public <jq@example.org>"}).Draw(t, "author")}}, items...)
+		insertMeta(rc.Item{Kind: rc.KMeta, Text: "author", Arg: rapid.SampledFrom([]string{"A. K. Dewdney", "nobody", "J.Q. Public <jq@example.org>", "strategy & name"}).Draw(t, "author")}, "author")
 	}
 	ns := rapid.IntRange(0, 2).Draw(t, "nstrat")
 	for k := 0; k < ns; k++ {
@@ -322,10 +329,11 @@ func Program(t *rapid.T, cfg AsmConfig) rc.Program {
 func StyleGen() *rapid.Generator[rc.Style] {
 	return rapid.Custom(func(t *rapid.T) rc.Style {
 		return rc.Style{
-			Choices:  rapid.SliceOfN(rapid.IntRange(0, 63), 8, 48).Draw(t, "choices"),
-			Rename:   rapid.Bool().Draw(t, "rename"),
-			EquPlace: rapid.IntRange(0, 2).Draw(t, "equplace"),
-			StartEnd: rapid.Bool().Draw(t, "startend"),
+			Choices:      rapid.SliceOfN(rapid.IntRange(0, 63), 8, 48).Draw(t, "choices"),
+			Rename:       rapid.Bool().Draw(t, "rename"),
+			EquPlace:     rapid.IntRange(0, 2).Draw(t, "equplace"),
+			StartEnd:     rapid.Bool().Draw(t, "startend"),
+			LeadingZeros: rapid.IntRange(0, 3).Draw(t, "leadingzeros") == 0,
 		}
 	})
 }
